@@ -40,10 +40,14 @@
 use std::collections::BTreeMap;
 use std::str::FromStr;
 use bcder::Mode;
+use bcder::encode::Values;
 use bytes::Bytes;
 use rayon::prelude::*;
 use rpki::repository::cert::{Overclaim, ResourceCert};
-use rpki::repository::manifest::{Manifest, ManifestContent};
+use chrono::{Datelike, Timelike};
+use rpki::crypto::DigestAlgorithm;
+use rpki::repository::manifest::{FileAndHash, Manifest, ManifestContent, ManifestHash};
+use rpki::repository::x509::{Time, Validity};
 use rpki::uri;
 use rpki_verif::engine::der::{self, Civil, MftEntry};
 use rpki_verif::engine::enumerate::{seq_at, seq_count};
@@ -244,7 +248,7 @@ fn clone_entry(e: &MftEntry) -> MftEntry { MftEntry { name: e.name.clone(), hash
 //------------ the oracles on one accepted manifest -----------------------------------
 
 /// Everything the property says about a manifest the library decoded.
-fn examine(t: &mut Tally, fx: &Fixed, c: &Case, mc: &ManifestContent, wit: &dyn Fn() -> String) {
+fn examine(t: &mut Tally, fx: &Fixed, c: &Case, mc: &ManifestContent, content_der: bool, wit: &dyn Fn() -> String) {
     // each listed name is a single RFC 9286 segment
     let mut bad_listed = false;
     for e in &c.entries {
@@ -286,6 +290,7 @@ fn examine(t: &mut Tally, fx: &Fixed, c: &Case, mc: &ManifestContent, wit: &dyn 
             break;
         }
     }
+    content_api(t, c, mc, &items, content_der, wit);
     // resolving against a base directory
     for (base, dir) in &fx.bases {
         let uris = match guard(|| mc.iter_uris(base).collect::<Vec<_>>()) {
@@ -317,10 +322,17 @@ fn examine(t: &mut Tally, fx: &Fixed, c: &Case, mc: &ManifestContent, wit: &dyn 
             if !base.is_parent_of(u) {
                 t.fail("C14.uris.parent", wit, format!("{}.is_parent_of({}) is false", esc(base.as_slice()), esc(s.as_bytes())));
             }
+            if let Some(n) = listed { uri_api(t, base, dir, &dir_uri, u, n, wit) }
             // a listed hash verifies exactly when it equals SHA-256(data)
             let listed_hash = items.get(i).map(|(_, h)| h.as_ref()).unwrap_or(&[]);
             if h.as_slice() != listed_hash {
                 t.fail("C14.iter.faithful", wit, format!("iter_uris hash {} differs from listed {}", hex(h.as_slice()), hex(listed_hash)));
+            }
+            // ManifestHash built by hand from what iter() gave is the one iter_uris() gives
+            let by_hand = ManifestHash::new(Bytes::copy_from_slice(listed_hash), mc.file_hash_alg());
+            if by_hand != *h || h.algorithm() != mc.file_hash_alg() || by_hand.as_slice() != h.as_slice()
+                || fx.data.iter().any(|(d, _)| by_hand.verify(d).is_ok() != h.verify(d).is_ok()) {
+                t.fail("C14.api.manifest_hash", wit, format!("entry {i}: ManifestHash::new(iter() hash, file_hash_alg()) and the iter_uris() hash differ (==, algorithm(), as_slice() or verify())"));
             }
             if std::ptr::eq(base, &fx.bases[0].0) {
                 let unused = c.entries.get(i).map(|e| e.hash_unused).unwrap_or(0);
@@ -334,6 +346,126 @@ fn examine(t: &mut Tally, fx: &Fixed, c: &Case, mc: &ManifestContent, wit: &dyn 
                 }
             }
         }
+    }
+}
+
+/// Accessors and by-value / by-reference siblings of the content: each must say
+/// what `iter()` and the encoder input already say (differential, no new facts).
+fn content_api(t: &mut Tally, c: &Case, mc: &ManifestContent, items: &[(Bytes, Bytes)], content_der: bool, wit: &dyn Fn() -> String) {
+    // FileAndHash: file(), hash(), into_pair(), AsRef
+    let fhs: Vec<FileAndHash<Bytes, Bytes>> = match guard(|| mc.iter().collect()) { Ok(v) => v, Err(_) => return };
+    for (i, fh) in fhs.iter().enumerate() {
+        let by_value = fh.clone().into_pair();
+        let same_ref: &FileAndHash<Bytes, Bytes> = fh.as_ref();
+        if items.get(i).map(|(n, h)| (n, h)) != Some((fh.file(), fh.hash())) || items.get(i) != Some(&by_value) || !std::ptr::eq(same_ref, fh) {
+            t.fail("C14.api.file_and_hash", wit, format!("entry {i}: file()/hash() = {}:{} , into_pair() = {}:{}, first iter() pass gave {:?}",
+                esc(fh.file()), hex(fh.hash()), esc(&by_value.0), hex(&by_value.1), items.get(i).map(|(n, h)| format!("{}:{}", esc(n), hex(h)))));
+        }
+    }
+    if fhs.len() != items.len() { t.fail("C14.api.file_and_hash", wit, format!("second iter() pass yields {} entries, first {}", fhs.len(), items.len())) }
+    // manifest_number(), this_update(), next_update(), file_hash_alg(): what was written
+    let mag: Vec<u8> = c.number.iter().copied().skip_while(|b| *b == 0).collect();
+    let mut want_no = [0u8; 20];
+    if mag.len() <= 20 { want_no[20 - mag.len()..].copy_from_slice(&mag) }
+    if mag.len() > 20 || mc.manifest_number().into_array() != want_no {
+        t.fail("C14.api.content_accessors", wit, format!("manifest_number() = {}, written magnitude {}", mc.manifest_number(), hex(&c.number)));
+    }
+    for (what, got, put) in [("this_update()", mc.this_update(), c.this), ("next_update()", mc.next_update(), c.next)] {
+        let g = civ(got.year(), got.month(), got.day(), got.hour(), got.minute(), got.second());
+        if valid_civil(put.civ) && (g != put.civ || got.nanosecond() != 0) {
+            t.fail("C14.api.content_accessors", wit, format!("{what} = {}, written {}", got.to_rfc3339(), put.show()));
+        }
+    }
+    if mc.file_hash_alg() != DigestAlgorithm::sha256() || !c.sha256_alg {
+        t.fail("C14.api.content_accessors", wit, "file_hash_alg() is not SHA-256 or a manifest with another algorithm was decoded".into());
+    }
+    // is_stale() is next_update() < now (the instants of the domain are years away from the real now)
+    let (before, stale, after) = (Time::now(), mc.is_stale(), Time::now());
+    if stale != (mc.next_update() < before) && stale != (mc.next_update() < after) {
+        t.fail("C14.api.is_stale", wit, format!("is_stale() = {stale}, next_update() = {}, now = {}", mc.next_update().to_rfc3339(), after.to_rfc3339()));
+    }
+    t.stat(if stale { "is_stale_true" } else { "is_stale_false" });
+    // encode_ref() and ManifestContent::new(): the value rebuilt from the accessors encodes like the decoded one,
+    // and what is encoded decodes to the same accessors (only for DER-captured content; re-encoding BER captures is C04's finding)
+    if content_der {
+        let enc = |m: &ManifestContent| guard(|| m.encode_ref().to_captured(Mode::Der).into_bytes());
+        let rebuilt = guard(|| ManifestContent::new(mc.manifest_number(), mc.this_update(), mc.next_update(), mc.file_hash_alg(), fhs.iter()));
+        match (enc(mc), rebuilt) {
+            (Ok(a), Ok(r)) => {
+                // octet-for-octet when no hash declares unused bits (the decoded value keeps the list as captured,
+                // the accessors hand out whole octets); in every case both encodings decode to the same accessors
+                let b = enc(&r);
+                let plain = c.entries.iter().all(|e| e.hash_unused == 0);
+                if b.is_err() || (plain && b.as_ref().ok() != Some(&a)) || r.len() != mc.len() || r.is_empty() != mc.is_empty() {
+                    t.fail("C14.api.reencode", wit, format!("ManifestContent::new(accessors of the decoded value) encodes to {:?}, the decoded value to {}", b.as_ref().map(|x| trunc(&hex(x), 200)), trunc(&hex(&a), 200)));
+                }
+                for (what, bytes) in [("the decoded value", Some(a.clone())), ("the value rebuilt with ManifestContent::new", b.ok())] {
+                    let Some(bytes) = bytes else { continue };
+                    match guard(|| Mode::Der.decode(bytes.clone(), ManifestContent::take_from)) {
+                        Ok(Ok(again)) => {
+                            let pairs: Vec<(Bytes, Bytes)> = guard(|| again.iter().map(|f| f.into_pair()).collect()).unwrap_or_default();
+                            if pairs != items || again.len() != mc.len() || again.manifest_number() != mc.manifest_number()
+                                || again.this_update() != mc.this_update() || again.next_update() != mc.next_update() {
+                                t.fail("C14.api.reencode", wit, format!("encode_ref() of {what} decodes to different accessors: {}", trunc(&hex(&bytes), 200)));
+                            }
+                        }
+                        other => t.fail("C14.api.reencode", wit, format!("encode_ref() of {what} does not decode again ({}): {}",
+                            match other { Err(p) => p, Ok(Err(e)) => e.to_string(), _ => String::new() }, trunc(&hex(&bytes), 200))),
+                    }
+                }
+            }
+            (a, r) => t.fail("C14.api.reencode", wit, format!("encode_ref() / ManifestContent::new panicked: {:?} {:?}", a.err(), r.err())),
+        }
+    }
+}
+
+/// The parts of `uri::Rsync` the oracles lean on, on every URI that
+/// `iter_uris` yields: each is compared with the string model or a sibling.
+fn uri_api(t: &mut Tally, base: &uri::Rsync, dir: &str, dir_uri: &uri::Rsync, u: &uri::Rsync, name: &[u8], wit: &dyn Fn() -> String) {
+    let s = u.as_str();
+    let name_str = std::str::from_utf8(name).unwrap_or("");
+    let mut bad: Vec<&'static str> = Vec::new();
+    // constructors that are siblings of from_str
+    let same = |r: Result<uri::Rsync, uri::Error>| matches!(r, Ok(x) if x == *u && x.as_str() == s);
+    if !same(uri::Rsync::from_slice(s.as_bytes())) { bad.push("from_slice") }
+    if !same(uri::Rsync::from_bytes(Bytes::copy_from_slice(s.as_bytes()))) { bad.push("from_bytes") }
+    if !same(uri::Rsync::from_string(s.to_string())) { bad.push("from_string") }
+    if !same(uri::Rsync::try_from(s.to_string())) { bad.push("try_from") }
+    // views of the same octets
+    if u.as_slice() != s.as_bytes() || u.to_bytes().as_ref() != s.as_bytes() || u.to_string() != s
+        || <uri::Rsync as AsRef<str>>::as_ref(u) != s || <uri::Rsync as AsRef<[u8]>>::as_ref(u) != s.as_bytes() { bad.push("as_slice/to_bytes/Display/AsRef") }
+    // parts: those of the base, then the directory path and the name
+    let module_len = base.module().len();
+    if u.authority() != base.authority() || u.module_name() != base.module_name() || u.module() != base.module()
+        || u.canonical_authority() != base.canonical_authority() || u.canonical_module() != base.canonical_module()
+        || u.canonical_authority() != u.authority().to_ascii_lowercase() { bad.push("authority/module") }
+    let want_path = format!("{}{}", &dir[module_len.min(dir.len())..], name_str);
+    if u.path() != want_path || u.path_bytes() != want_path.as_bytes() || u.path_is_dir() { bad.push("path/path_bytes/path_is_dir") }
+    // ends_with(): what the path string says
+    let ext = &name_str[name_str.len().saturating_sub(4)..];
+    for x in [ext, ".roa", ".cer", ".CER", name_str, "/", ""] {
+        if u.ends_with(x) != want_path.ends_with(x) { bad.push("ends_with") }
+    }
+    if !u.ends_with(ext) { bad.push("ends_with(extension of the listed name)") }
+    // relative_to() is the inverse of join(), from the base and from its directory
+    for from in [base, dir_uri] {
+        match u.relative_to(from) {
+            Some(rel) if rel == name_str => if !matches!(from.join(rel.as_bytes()), Ok(j) if j == *u) { bad.push("join(relative_to)") },
+            _ => bad.push("relative_to"),
+        }
+    }
+    if !matches!(u.parent().map(|p| p.join(name)), Some(Ok(j)) if j == *u) { bad.push("parent().join(name)") }
+    if !dir_uri.is_parent_of(u) || u.is_parent_of(u) || u.is_parent_of(base) { bad.push("is_parent_of") }
+    // mutators on a copy
+    let mut d = u.clone(); d.path_into_dir();
+    if d.as_str().strip_suffix('/') != Some(s) || !d.path_is_dir() { bad.push("path_into_dir") }
+    let mut d2 = d.clone(); d2.path_into_dir();
+    if d2 != d { bad.push("path_into_dir (idempotent)") }
+    let mut sh = u.clone(); sh.unshare();
+    if sh != *u || sh.as_str() != s || sh.path() != u.path() { bad.push("unshare") }
+    if !bad.is_empty() {
+        bad.dedup();
+        t.fail("C14.api.uri", wit, format!("{} (from iter_uris({})): disagreement in {}", esc(s.as_bytes()), esc(base.as_slice()), bad.join(", ")));
     }
 }
 
@@ -361,7 +493,7 @@ fn judge_content(t: &mut Tally, fx: &Fixed, c: &Case, der_mode: bool, res: Resul
         }
         Ok(Ok(mc)) => {
             t.outcome(if c.model_accepts(der_mode) { "accepted (model: nothing wrong)" } else { "accepted (model: something wrong)" });
-            examine(t, fx, c, &mc, wit);
+            examine(t, fx, c, &mc, der_mode, wit);
             true
         }
     }
@@ -439,7 +571,10 @@ fn run_both(t: &mut Tally, fx: &Fixed, c: &Case) -> (bool, bool) {
 
 struct Cms {
     signer: PoolSigner,
+    /// EE certificate valid 2000..2100 (used everywhere)
     ee_der: Vec<u8>,
+    /// the same EE certificate with the windows 2000..2001 (expired) and 2100..2101 (not yet valid)
+    ee_alt: [Vec<u8>; 2],
     ca: ResourceCert,
 }
 
@@ -448,12 +583,22 @@ const EE_KEY: usize = 2;
 impl Cms {
     fn new() -> Cms {
         let signer = PoolSigner::load();
-        let ta = pki::valid_ta(&signer, 0, Res::all());
-        let ca = pki::valid_ca(&signer, &ta, 0, 1, Res::all());
-        let inherit = Res { v4: Claim::Inherit, v6: Claim::Inherit, asn: Claim::Inherit };
-        let spec = Spec::issued(Kind::Ee, EE_KEY, 1, ca.subject_key_identifier(), inherit, Overclaim::Refuse);
-        let ee_der = pki::build_cert_der(&signer, &spec);
-        Cms { signer, ee_der, ca }
+        // windows decades wide around the real now, so that the wall-clock entry points can be compared
+        let window = |from: i32, to: i32| Validity::new(Time::utc(from, 1, 1, 0, 0, 0), Time::utc(to, 1, 1, 0, 0, 0));
+        let mut ta_spec = Spec::ta(0, Res::all());
+        ta_spec.validity = window(2000, 2100);
+        let ta = pki::build_cert(&signer, &ta_spec).validate_ta_at(pki::tal(), true, pki::time(pki::T0)).expect("TA validates");
+        let mut ca_spec = Spec::issued(Kind::Ca, 1, 0, ta.subject_key_identifier(), Res::all(), Overclaim::Refuse);
+        ca_spec.validity = window(2000, 2100);
+        let ca = pki::build_cert(&signer, &ca_spec).validate_ca_at(&ta, true, pki::time(pki::T0)).expect("CA validates");
+        let ee = |from: i32, to: i32| {
+            let inherit = Res { v4: Claim::Inherit, v6: Claim::Inherit, asn: Claim::Inherit };
+            let mut spec = Spec::issued(Kind::Ee, EE_KEY, 1, ca.subject_key_identifier(), inherit, Overclaim::Refuse);
+            spec.validity = window(from, to);
+            pki::build_cert_der(&signer, &spec)
+        };
+        let (ee_der, ee_alt) = (ee(2000, 2100), [ee(2000, 2001), ee(2100, 2101)]);
+        Cms { signer, ee_der, ee_alt, ca }
     }
     /// Signed attributes and signature for `econtent` (they do not depend on
     /// how the eContent OCTET STRING is encoded).
@@ -488,7 +633,8 @@ impl Cms {
     /// The same object with the eContent OCTET STRING given as a ready TLV
     /// (so that it can be a BER constructed string); `outer_indef` also writes
     /// the [0] wrapper and the EncapsulatedContentInfo with indefinite length.
-    fn assemble(&self, s: &Signed, econtent_tlv: &[u8], outer_indef: bool) -> Vec<u8> {
+    fn assemble(&self, s: &Signed, econtent_tlv: &[u8], outer_indef: bool, ee: usize) -> Vec<u8> {
+        let ee_der = if ee == 0 { &self.ee_der } else { &self.ee_alt[ee - 1] };
         let eci_body = der::cat(&[der::oid(der::OID_CT_MANIFEST),
             if outer_indef { indefinite(0xa0, econtent_tlv) } else { der::ctx(0, true, econtent_tlv) }]);
         let eci = if outer_indef { indefinite(der::T_SEQ, &eci_body) } else { der::tlv(der::T_SEQ, &eci_body) };
@@ -497,7 +643,7 @@ impl Cms {
             der::ctx(0, true, &der::cat(&s.attrs)), der::alg_rsa_encryption(), der::octets(&s.signature),
         ]);
         let sd = der::seq(&[
-            der::int_u(3), der::set_of(&[der::alg_sha256(false)]), eci, der::ctx(0, true, &self.ee_der), der::set_unsorted(&[si]),
+            der::int_u(3), der::set_of(&[der::alg_sha256(false)]), eci, der::ctx(0, true, ee_der), der::set_unsorted(&[si]),
         ]);
         der::seq(&[der::oid(der::OID_SIGNED_DATA), der::ctx(0, true, &sd)])
     }
@@ -536,8 +682,9 @@ impl Enc {
 fn run_cms(t: &mut Tally, fx: &Fixed, cms: &Cms, c: &Case, econtent: &[u8], content_der_accepted: bool) -> Signed {
     let signed = cms.sign(econtent);
     let obj = Bytes::from(cms.wrap(econtent, &signed));
+    let tlv = der::octets(econtent);
     for strict in [true, false] {
-        run_object(t, fx, cms, c, econtent, &obj, strict, "", Some(content_der_accepted));
+        run_object(t, fx, cms, c, econtent, &obj, strict, "", Some(content_der_accepted), &|ee| cms.assemble(&signed, &tlv, false, ee));
     }
     signed
 }
@@ -545,7 +692,7 @@ fn run_cms(t: &mut Tally, fx: &Fixed, cms: &Cms, c: &Case, econtent: &[u8], cont
 /// Decodes one signed object in one mode; `enc` names a non-DER eContent encoding.
 #[allow(clippy::too_many_arguments)]
 fn run_object(t: &mut Tally, fx: &Fixed, cms: &Cms, c: &Case, econtent: &[u8], obj: &Bytes, strict: bool, enc: &str,
-              content_der_accepted: Option<bool>) {
+              content_der_accepted: Option<bool>, alt: &dyn Fn(usize) -> Vec<u8>) {
     {
         t.evals += 1;
         let wit = || witness(&format!("Manifest::decode/{}{}{enc}", if strict { "strict" } else { "relaxed" }, if enc.is_empty() { "" } else { " " }), c, econtent);
@@ -561,7 +708,9 @@ fn run_object(t: &mut Tally, fx: &Fixed, cms: &Cms, c: &Case, econtent: &[u8], o
             Ok(Ok(m)) => {
                 t.outcome(if model_ok { "accepted (model: nothing wrong)" } else { "accepted (model: something wrong)" });
                 if content_der_accepted == Some(false) { t.stat("cms_accepted_but_econtent_alone_rejected") }
-                examine(t, fx, c, m.content(), &wit);
+                // (the eContent of a signed object is decoded in DER mode whatever `strict` says)
+                examine(t, fx, c, m.content(), true, &wit);
+                manifest_views(t, cms, c, &m, obj, strict, alt, &wit);
                 // the wrapping is a real signed object: it validates under the CA
                 match guard(|| m.validate_at(&cms.ca, strict, pki::time(pki::T0))) {
                     Ok(Ok(_)) => t.stat("cms_validated_under_ca"),
@@ -571,6 +720,64 @@ fn run_object(t: &mut Tally, fx: &Fixed, cms: &Cms, c: &Case, econtent: &[u8], o
             }
         }
     }
+}
+
+/// The views and wall-clock siblings of one decoded `Manifest`.
+#[allow(clippy::too_many_arguments)]
+fn manifest_views(t: &mut Tally, cms: &Cms, c: &Case, m: &Manifest, obj: &Bytes, strict: bool, alt: &dyn Fn(usize) -> Vec<u8>, wit: &dyn Fn() -> String) {
+    use std::borrow::Borrow;
+    // content(), Deref, AsRef, Borrow: one and the same content; cert(): the EE certificate that was put in
+    let content: &ManifestContent = m.content();
+    let views: [&ManifestContent; 3] = [m, m.as_ref(), m.borrow()];
+    let me: &Manifest = m.as_ref();
+    if views.iter().any(|v| !std::ptr::eq(*v, content)) || !std::ptr::eq(me, m) || m.len() != content.len()
+        || m.cert().subject_key_identifier() != cms.signer.ski(EE_KEY) {
+        t.fail("C14.api.manifest_views", wit, "content() / Deref / AsRef / Borrow / cert() disagree".into());
+    }
+    let pairs = |mc: &ManifestContent| guard(|| mc.iter().map(|f| f.into_pair()).collect::<Vec<(Bytes, Bytes)>>());
+    let same_content = |a: &ManifestContent, b: &ManifestContent| a.len() == b.len() && a.manifest_number() == b.manifest_number()
+        && a.this_update() == b.this_update() && a.next_update() == b.next_update() && a.file_hash_alg() == b.file_hash_alg() && pairs(a) == pairs(b);
+    // validate() is validate_at(Time::now()); the by-value content it returns is the by-reference one
+    let wall_clock = |m: &Manifest, which: &'static str, t: &mut Tally| {
+        let at_now = guard(|| m.clone().validate_at(&cms.ca, strict, Time::now()));
+        let wall = guard(|| m.clone().validate(&cms.ca, strict));
+        let verdict = |r: &Result<Result<(ResourceCert, ManifestContent), rpki::repository::error::ValidationError>, String>| match r { Ok(Ok(_)) => "valid", Ok(Err(_)) => "invalid", Err(_) => "panic" };
+        if verdict(&at_now) != verdict(&wall) || verdict(&wall) == "panic" {
+            t.fail("C14.api.validate_now", wit, format!("EE window {which}: validate() = {}, validate_at(Time::now()) = {}", verdict(&wall), verdict(&at_now)));
+        }
+        if let (Ok(Ok((cert_a, ca))), Ok(Ok((cert_b, cb)))) = (&at_now, &wall) {
+            if !same_content(ca, m.content()) || !same_content(cb, m.content()) || cert_a.subject_key_identifier() != cert_b.subject_key_identifier() {
+                t.fail("C14.api.validate_now", wit, format!("EE window {which}: the content returned by validate()/validate_at() differs from content()"));
+            }
+        }
+        t.stat(match (which, verdict(&wall)) {
+            ("2000..2100", "valid") => "validate_now_current_valid", ("2000..2100", _) => "validate_now_current_invalid",
+            ("2000..2001", "valid") => "validate_now_expired_valid", ("2000..2001", _) => "validate_now_expired_invalid",
+            (_, "valid") => "validate_now_future_valid", _ => "validate_now_future_invalid",
+        });
+    };
+    wall_clock(m, "2000..2100", t);
+    for (i, which) in [(1usize, "2000..2001"), (2, "2100..2101")] {
+        match guard(|| Manifest::decode(Bytes::from(alt(i)), strict)) {
+            Ok(Ok(other)) => {
+                if !same_content(other.content(), m.content()) { t.fail("C14.api.validate_now", wit, format!("EE window {which}: same eContent, different content()")) }
+                wall_clock(&other, which, t)
+            }
+            _ => t.stat("object_with_other_ee_window_not_decoded"),
+        }
+    }
+    // encode_ref()/to_captured(): a strictly decoded object written out again decodes to the same manifest
+    // (objects decoded in relaxed mode cannot be re-encoded: C04's finding)
+    if strict {
+        match guard(|| m.to_captured().into_bytes()) {
+            Ok(again) => match guard(|| Manifest::decode(again.clone(), true)) {
+                Ok(Ok(m2)) if same_content(m2.content(), m.content()) => if again == *obj { t.stat("to_captured_identical_to_input") } else { t.stat("to_captured_differs_from_input_but_same_manifest") },
+                _ => t.fail("C14.api.reencode", wit, format!("to_captured() of a strictly decoded manifest does not decode to the same manifest: {}", trunc(&hex(&again), 300))),
+            },
+            Err(p) => t.fail("C14.api.reencode", wit, format!("to_captured() of a strictly decoded manifest panicked: {p}")),
+        }
+    }
+    let _ = c;
 }
 
 //------------ spaces -------------------------------------------------------------------
@@ -630,8 +837,9 @@ fn names_alphabet(ctx: &Ctx, fx: &Fixed, cms: &Cms) {
                     // the eContent as a constructed OCTET STRING of two fragments, split at every offset of the name
                     for cut in from..=to {
                         let enc = Enc { cuts: vec![cut], indef: false, outer_indef: false, nested: false };
-                        let obj = Bytes::from(cms.assemble(&signed, &enc.tlv(&ec), false));
-                        for strict in [true, false] { run_object(&mut tc, fx, cms, &c, &ec, &obj, strict, &enc.show(), None) }
+                        let obj = Bytes::from(cms.assemble(&signed, &enc.tlv(&ec), false, 0));
+                        let tlv = enc.tlv(&ec);
+                        for strict in [true, false] { run_object(&mut tc, fx, cms, &c, &ec, &obj, strict, &enc.show(), None, &|ee| cms.assemble(&signed, &tlv, false, ee)) }
                     }
                 }
             }
@@ -801,9 +1009,9 @@ fn long_bases(t: &mut Tally) -> Vec<(uri::Rsync, String)> {
     out
 }
 
-fn names_length(ctx: &Ctx, fx: &Fixed, cms: &Cms) {
+fn names_length(ctx: &Ctx, _fx: &Fixed, cms: &Cms) {
     let sp = ctx.space("names.length",
-        "stems of every length 1..=300 and {511,512,1023,1024,4095,4096,65531,65532,65535,65536} octets in 6 character classes (a, Z, 0, -, _, half Z half _) x 8 shapes (valid .roa, valid .CER, two-letter and four-letter extension, no dot, slash inside, second dot, digit in extension), alone and after a valid entry, DER and BER mode; valid names whose stem length is a multiple of 25, within 248..=258, or above 300 also through Manifest::decode; every accepted list is resolved against each of 16 candidate base URIs that the library constructs (refusals are counted in statistics.base_uri_refused_by_library; the 3 usual ones, upper-case scheme/host, 200 levels deep, last segment of 254/255/256 octets with and without trailing slash, 255-octet module, total length 255/256/4095/4096/65535/65536); non-trivial = distinct names longer than 7 octets (beyond names.alphabet)");
+        "stems of every length 1..=300 and {511,512,1023,1024,4095,4096,65531,65532,65535,65536} octets in 6 character classes (a, Z, 0, -, _, half Z half _) x 8 shapes (valid .roa, valid .CER, two-letter and four-letter extension, no dot, slash inside, second dot, digit in extension), alone and after a valid entry, DER and BER mode; valid names whose stem length is a multiple of 25, within 248..=258, or above 300 also through Manifest::decode; every accepted list is resolved against each of 16 candidate base URIs that the library constructs (refusals are counted in statistics.base_uri_refused_by_library; the 3 usual ones, upper-case scheme/host, 200 levels deep, last segment of 254/255/256 octets with and without trailing slash, 255-octet module, total length 255/256/4095/4096/65535/65536 -- the last two only for stem lengths up to 8, multiples of 25, 248..=258 and above 300); non-trivial = distinct names longer than 7 octets (beyond names.alphabet)");
     let mut t0 = Tally::default();
     let mut fxl = Fixed::new();
     fxl.bases = long_bases(&mut t0);
@@ -811,9 +1019,14 @@ fn names_length(ctx: &Ctx, fx: &Fixed, cms: &Cms) {
     let lens = stem_lengths();
     let classes: [(u8, u8); 6] = [(b'a', b'a'), (b'Z', b'Z'), (b'0', b'0'), (b'-', b'-'), (b'_', b'_'), (b'Z', b'_')];
     let jobs: Vec<(usize, usize)> = lens.iter().flat_map(|&l| (0..classes.len()).map(move |k| (l, k))).collect();
-    let fxl = &fxl;
+    // the two bases of 65 535 / 65 536 octets are resolved for the boundary stem lengths only
+    let boundary = |l: usize| l <= 8 || l % 25 == 0 || (248..=258).contains(&l) || l > 300;
+    let mut fxs = Fixed::new();
+    fxs.bases = fxl.bases.iter().filter(|(b, _)| b.as_slice().len() < 65535).cloned().collect();
+    let (fxl, fxs) = (&fxl, &fxs);
     let parts: Vec<Tally> = jobs.par_iter().map(|&(l, k)| {
         let mut t = Tally::default();
+        let fxl = if boundary(l) { fxl } else { fxs };
         let (c1, c2) = classes[k];
         let stem: Vec<u8> = (0..l).map(|i| if i < l.div_ceil(2) { c1 } else { c2 }).collect();
         let with = |tail: &[u8]| [stem.as_slice(), tail].concat();
@@ -830,7 +1043,7 @@ fn names_length(ctx: &Ctx, fx: &Fixed, cms: &Cms) {
                 let acc = run_content(&mut t, fxl, &c, &ec, true);
                 run_content(&mut t, fxl, &c, &ec, false);
                 if acc && a == 0 { t.stat("distinct_names_accepted") }
-                if si == 0 && a == 0 && (l % 25 == 0 || (248..=258).contains(&l) || l > 300) { run_cms(&mut t, fxl, cms, &c, &ec, acc); }
+                if si == 0 && a == 0 && boundary(l) && l > 8 { run_cms(&mut t, fxl, cms, &c, &ec, acc); }
             }
         }
         t
@@ -883,9 +1096,10 @@ fn econtent_fragments(ctx: &Ctx, fx: &Fixed, cms: &Cms) {
             if cut + 3 <= n { encs.push(Enc { cuts: vec![cut, cut + 3], indef: true, outer_indef: false, nested: false }) }
             for enc in encs {
                 if spans.iter().any(|&(f, e)| f < cut && cut < e) { t.nontrivial += 1 }
-                let obj = Bytes::from(cms.assemble(&signed, &enc.tlv(&ec), enc.outer_indef));
+                let tlv = enc.tlv(&ec);
+                let obj = Bytes::from(cms.assemble(&signed, &tlv, enc.outer_indef, 0));
                 let how = enc.show();
-                for strict in [true, false] { run_object(&mut t, fx, cms, &c, &ec, &obj, strict, &how, None) }
+                for strict in [true, false] { run_object(&mut t, fx, cms, &c, &ec, &obj, strict, &how, None, &|ee| cms.assemble(&signed, &tlv, enc.outer_indef, ee)) }
             }
         }
         t
@@ -1057,7 +1271,7 @@ fn main() {
         let ec = c.econtent();
         let signed = cms.sign(&ec);
         let obj = cms.wrap(&ec, &signed);
-        if cms.assemble(&signed, &der::octets(&ec), false) != obj {
+        if cms.assemble(&signed, &der::octets(&ec), false, 0) != obj {
             ctx.machinery_error("fixture: own SignedData assembly differs from der::signed_data for a primitive eContent");
         }
         for strict in [true, false] {
